@@ -10,6 +10,11 @@ TYW = {"u8": 8, "u16": 16, "u32": 32, "u64": 64, "u128": 128, "usize": 64, "i8":
 
 
 def ty_width(ty):
+    ty = (ty or "").strip()
+    while ty.startswith("&"):
+        ty = ty[1:].strip()
+        if ty.startswith("mut "):
+            ty = ty[4:].strip()
     return TYW.get(ty)
 
 
@@ -104,6 +109,11 @@ class Widths:
                 return min(w, a)
             if op in ("Lt", "Le", "Gt", "Ge", "Eq", "Ne"):
                 return 1
+            return w
+        if k == "ref":
+            pl = rv.get("place") or {}
+            if all(e == "deref" for e in pl.get("p", [])):
+                return self.local_bits(pl["l"])
             return w
         if k == "un":
             return w
